@@ -205,13 +205,15 @@ SystemMaybe<Unit> Fs::setxattr(const std::string& path, const std::string& attr,
   if (which == 3) nodes[n].x_uuid[tu] = (int)num;
   return noSystemError();
 }
+// accounting xattr values are kept within int (the 32-bit decimal conversion is much cheaper for the solver)
+static int xint(int64_t v) { if (v < -2147483647 || v > 2147483647) vf_bound("xattr value outside int"); return (int)v; }
 SystemMaybe<std::string> Fs::getxattr(const std::string& path, const std::string& attr) {
   access();
   int n = find_abs(path);
   if (n < 0 || !nodes[n].exists || !avail(n, F_XATTR)) return SYSTEM_ERROR(ENOENT);
   int which = 0, tu = xidx(attr, &which);
-  if (which == 1) return nodes[n].x_has_ooms[tu] ? std::to_string(nodes[n].x_ooms[tu]) : std::string("");
-  if (which == 2) return nodes[n].x_has_kill[tu] ? std::to_string(nodes[n].x_kill[tu]) : std::string("");
+  if (which == 1) return nodes[n].x_has_ooms[tu] ? std::to_string(xint(nodes[n].x_ooms[tu])) : std::string("");
+  if (which == 2) return nodes[n].x_has_kill[tu] ? std::to_string(xint(nodes[n].x_kill[tu])) : std::string("");
   return std::string("");
 }
 SystemMaybe<int> Fs::getSwappiness(const std::string&) { access(); return 60; }
